@@ -431,7 +431,9 @@ class Mesh:
             If ``True``, include only boundary facets.
 
         """
-        nodes = np.nonzero(test(self.p))[0].astype(np.int32)
+        # the nodes are the vertices; a higher order mesh has other points
+        nodes = (np.nonzero(test(self.p[:, :self.nvertices]))[0]
+                 .astype(np.int32))
         if boundaries_only:
             nodes = np.intersect1d(nodes, self.boundary_nodes())
         return nodes
